@@ -24,7 +24,7 @@ def rfc6979(d, h1):
 def work(seed):
     rng = random.Random(seed)
     out = []
-    for _ in range(1500):
+    for _ in range(1200):
         d = rng.choice([rng.randrange(1, N), rng.randrange(1, 2 ** 32), 0x4f3edf983ac636a65a842ce7c78d9aa706d3b113bce9c46f30d7d21715b23b1d])
         z = rng.randrange(N)
         k = rfc6979(d, z.to_bytes(32, 'big'))
@@ -34,6 +34,12 @@ def work(seed):
         s = min(s, N - s)
         if r < 2 ** 248 or s < 2 ** 248:
             out.append("%064x %064x %d %d" % (d, z, (r.bit_length() + 7) // 8, (s.bit_length() + 7) // 8))
+        else:
+            rb, sb = r.to_bytes(32, "big"), s.to_bytes(32, "big")
+            zr = [i for i in range(32) if rb[i] == 0]
+            zs = [i for i in range(32) if sb[i] == 0]
+            if zr or zs:
+                out.append("%064x %064x zero-r:%s zero-s:%s" % (d, z, ".".join(map(str, zr)) or "-", ".".join(map(str, zs)) or "-"))
     return out
 
 
